@@ -350,7 +350,11 @@ func partialFill(d *DPath, al *ssa.Alloc, size int64) (int64, bool) {
 				}
 				n := cur.len
 				if x.High != nil {
-					v, ok := evalTerm(d.Env.Term(x.High), map[string]*big.Int{})
+					asg := tableAsg // a bound computed from the value the table's row stands for (1 << (prefix & 3))
+					if asg == nil {
+						asg = map[string]*big.Int{}
+					}
+					v, ok := evalTerm(d.Env.Term(x.High), asg)
 					if !ok || v.Sign() <= 0 || v.Int64() > cur.len {
 						return 0, false
 					}
